@@ -73,7 +73,8 @@ def run(ctx):
                     "authoritative(include subdomains)) that passed a filter whose decision table is match_qclass(question.qclass) AND "
                     "match_qtype(question.qtype); R2 additional records come only from get_domain_resources(srv.target, authoritative(false)) "
                     "filtered by (A or AAAA) AND the question class; R3 the reply is new_reply(query id), the unicast flag is set only under "
-                    "question.unicast_response and None is returned iff no answer was pushed; R4 trie keys keep label boundaries.")
+                    "question.unicast_response and None is returned iff no answer was pushed; R4 trie keys keep label boundaries; "
+                    "R5 registering a record stores it as Authoritative unconditionally (replacing a cached copy).")
     b = ctx.must_find(report, "simple_mdns::build_reply")
     gk = ctx.must_find(report, "simple_mdns::resource_record_manager::get_key")
     if b is None or gk is None:
@@ -114,7 +115,12 @@ def run(ctx):
         auth = mu.calls(b, r"DomainResourceFilter::authoritative$")
         flags = sorted(int(t["args"][0]["k"]["v"]) for bi, t in auth if t["args"][0]["o"] == "const")
         names_ok = len(gdr) == 2 and _arg_field(b, defs, gdr[0][1]["args"][1]) == "qname" and _arg_field(b, defs, gdr[1][1]["args"][1]) == "target"
-        if okp and len(f0) == 1 and names_ok and flags == [0, 1]:
+        if okp and len(f0) == 1 and names_ok and flags != [0, 1]:
+            viol(report, "C13-R2" if flags == [1, 1] else "C13-R1", b, "subdomain-flags", "the two store lookups use DomainResourceFilter::authoritative(%s): "
+                 "the answer lookup must include subdomains (true) and the additional-record lookup must be restricted to the SRV target "
+                 "itself (false) - %s" % (flags, "address records of names below the target would be added" if flags == [1, 1] else
+                                          "subdomain owners would not be answered"))
+        elif okp and len(f0) == 1 and names_ok and flags == [0, 1]:
             report.nontriv("answer provenance")
             report.sample({"answers": "clone of items of filter(closure#0) over get_domain_resources(&question.qname, authoritative(true))"})
         else:
@@ -242,6 +248,21 @@ def run(ctx):
             viol(report, "C13-R4", gk, "key-boundaries", "the per-label part of the trie key (%s) carries no length prefix: names that split "
                  "the same characters differently (printer.office.local / officeprinter.local) or whose first label extends another's "
                  "(_res1 / _res10 with a separator byte) share a key or a key prefix, so label-wise matching is impossible" % rt)
+    # ---- R5 a registered record is stored as Authoritative whatever was cached for it before
+    aa = prog.find("simple_mdns::ResourceRecordManager::add_authoritative_resource")
+    report.count()
+    if aa is None:
+        report.lost_anchor("ResourceRecordManager::add_authoritative_resource")
+    else:
+        insa = mu.calls(aa, r"HashMap::<K, V, S, A>::insert$")
+        soft = mu.calls(aa, r"HashMap::<K, V, S, A>::(entry|try_insert|get_or_insert_with)$|Entry::<'a, K, V>::or_insert(_with)?$")
+        auth_vals = mu.aggregates(aa, "ResourceRecordType", "Authoritative")
+        if len(insa) >= 2 and not soft and auth_vals:
+            report.nontriv("authoritative registration replaces")
+        else:
+            viol(report, "C13-R5", aa, "registration", "add_authoritative_resource does not unconditionally store the record as Authoritative in "
+                 "both the existing-name and new-name paths (%d insert calls, non-replacing calls %s): a record that was cached before "
+                 "being registered stays Cached and is left out of replies" % (len(insa), [t["callee"]["name"] for _, t in soft]))
     report.assumptions += ["that trie lookup is label-wise equality / subdomain for all stores is not decided (value-level); R4 is a necessary condition",
                            "match_qtype / match_qclass are C18-R4"]
     return report.finish()
